@@ -1446,3 +1446,23 @@ MUTANTS += [
  dict(id="C06-uring-v6-completion-parsed-as-v4", props=["C06"], expect={"C06": r"recv#uring#family_arms"},
       edits=[(URM, "                if let Some((addr, response)) = self.handle_recv_cqe(&cqe, false) {", "                if let Some((addr, response)) = self.handle_recv_cqe(&cqe, true) {")]),
 ]
+
+MIOS = MIO + "socket.rs"
+MUTANTS += [
+ dict(id="C06-mio-v6-event-reads-v4-socket", props=["C06"], expect={"C06": r"dispatch#mio#token_per_socket"},
+      edits=[(MIO+"mod.rs", """                    TOKEN_V6 => {
+                        if let Some(socket) = opt_socket_ipv6.as_mut() {""", """                    TOKEN_V6 => {
+                        if let Some(socket) = opt_socket_ipv4.as_mut() {""")]),
+ dict(id="C06-mio-both-sockets-registered-under-one-token", props=["C06"], expect={"C06": r"dispatch#mio#token_per_socket"},
+      edits=[(MIO+"mod.rs", "            .register(&mut socket.socket, TOKEN_V6, Interest::READABLE)", "            .register(&mut socket.socket, TOKEN_V4, Interest::READABLE)")]),
+ dict(id="C06-mio-receive-loop-stops-after-garbage", props=["C06"], expect={"C06": r"dispatch#mio#drains_until_would_block"},
+      edits=[(MIOS, """                                "request parse error (didn't send error response): {:?}",
+                                err
+                            );
+                        }""", """                                "request parse error (didn't send error response): {:?}",
+                                err
+                            );
+
+                            break;
+                        }""")]),
+]
